@@ -501,28 +501,34 @@ class DomainError(Exception):
 
 def admissible(events, recs, spec, mesh_depth):
     """None if every depth argument of the generated code and every access
-    of a kernel stays within a halo of depth `mesh_depth`, else a reason."""
+    of a kernel stays within a halo of depth `mesh_depth`; else
+    ("deep", reason) when a deeper mesh is needed or ("zero", reason) when
+    a halo exchange / is_dirty depth is below 1 (field_parent_mod indexes
+    halo_dirty(depth))."""
     env = dict(spec.get("extents", {}))
     env["max_halo_depth_mesh"] = mesh_depth
     cont = [G.is_continuous_space(s) for s in spec["fields"]]
     for evt in events:
         if evt["ev"] == "hx":
             dep = eval_depth(evt["depth"], env)
-            if not 1 <= dep <= mesh_depth:
-                return f"halo exchange depth {dep}"
+            if dep < 1:
+                return ("zero", f"halo exchange of {evt['field']} with "
+                                f"depth={evt['depth']} = {dep}")
+            if dep > mesh_depth:
+                return ("deep", f"halo exchange depth {dep}")
         elif evt["ev"] == "clean":
             dep = eval_depth(evt["depth"], env)
             if not 0 <= dep <= mesh_depth:
-                return f"set_clean depth {dep}"
+                return ("deep", f"set_clean depth {dep}")
         elif evt["ev"] == "loop":
             space, level = loop_level(evt, env)
             if evt["bound"] == "halo" and not 1 <= level <= mesh_depth:
-                return f"loop depth {level}"
+                return ("deep", f"loop depth {level}")
             for call in evt["calls"]:
                 for _, need, _, _ in requirements(recs[call["rec"]], space,
-                                               level, cont):
+                                                  level, cont):
                     if need > mesh_depth:
-                        return f"access to depth {need}"
+                        return ("deep", f"access to depth {need}")
     return None
 
 
